@@ -124,6 +124,7 @@ func matchNumCallsZero(p *Prog) condMatch {
 
 func runC13(c *Check, a *Analysis) {
 	p := c.P
+	ruleConnCloseReleases(c, a, "R-CLOSE-RELEASES")
 	ruleLockBalance(c, a, "R-LOCK-BALANCE", "Transport.connsMu", "persistConn.mu")
 	sc := siteCounter{}
 	c.Rule("R-LOCK", "Transport.conns/idleConns/running, conns.Conns/cursor and connQueue.front/rear/length are only accessed with Transport.connsMu held", 30)
@@ -629,6 +630,7 @@ func runC15(c *Check, a *Analysis) {
 	ls := a.Locks()
 	sc := siteCounter{}
 	ruleRetireTiming(c, a, "R-RETIRE-TIMING")
+	ruleConnCloseReleases(c, a, "R-CLOSE-RELEASES")
 	c.Rule("R-BUSY-GUARD", "in housekeeping and CloseIdleConnections every Close / removal of an active-list entry is dominated by NumCalls() == 0 on that connection", 4)
 	for _, name := range []string{"(*Transport).run", "(*Transport).CloseIdleConnections"} {
 		fn := p.Fn(name)
